@@ -43,7 +43,11 @@ def _make_class(tap):
             self.entry = {'key': key, 'U': [], 'B': [], 'global': self._global}
             tap.log.append(self.entry)
             if tap.script is None:
-                _real.Random.seed(self, None if key == 'g' else key)
+                if key == 'g' or key is None:
+                    # OS entropy in real life; a value handed in by the harness keeps runs reproducible
+                    tap.entropy_used += 1
+                    key = None if tap.entropy is None else tap.entropy + tap.entropy_used
+                _real.Random.seed(self, key)
             else:
                 u, b = tap.script.get(_k(key), ((), ()))
                 self._u = iter(u)
@@ -96,8 +100,10 @@ def _k(key):
 
 
 class Tap:
-    def __init__(self, script=None):
+    def __init__(self, script=None, entropy=None):
         self.script = script
+        self.entropy = entropy
+        self.entropy_used = 0
         self.log = []
         self.Random = _make_class(self)
         self.glob = self.Random(None, _global=True)
